@@ -30,6 +30,7 @@ mod imp {
             match _a.str("parity", "mixed").as_str() {
                 "even" => set_parity(Parity::Even),
                 "odd" => set_parity(Parity::Odd),
+                "packed" => set_parity(Parity::Packed),
                 _ => set_parity(Parity::Mixed),
             }
         }
